@@ -301,7 +301,8 @@ pub fn run(r: &mut Runner) {
     // ---- powi
     let ns = exponents();
     let mut bases: Vec<[f64; 2]> = vec![[0.0, 0.0], [-0.0, 0.0], [1.0, 0.0], [-1.0, 0.0], [2.0, 0.0], [-2.0, 0.0], [0.5, 0.0], [10.0, 0.0], [-3.0, 2f64.powi(-54)], [1.5, -2f64.powi(-55)], [core::f64::consts::PI, 1.2246467991473532e-16], [-0.7, 1e-17], [1e-5, 1e-22], [12345.678, 1e-13]];
-    for j in [1, 2, 5, 10, 20, 24, 29, 30, 31, 32, 40, 52] {
+    let js: Vec<i32> = if quick { vec![1, 2, 5, 10, 20, 24, 29, 30, 31, 32, 40, 52] } else { (1..=52).collect() };
+    for j in js {
         for s in [1.0, -1.0] {
             for d in [0.0, 2f64.powi(-52)] {
                 let h = 1.0 + s * 2f64.powi(-j) + d;
